@@ -131,7 +131,7 @@ def theorem_names(prop):
             if m and ns and ns[-1] == m.group(1):
                 ns.pop()
                 continue
-            m = re.match(r'\s*(?:@\[[^\]]*\]\s*)?(?:private\s+|protected\s+)?theorem\s+([^\s:({\[]+)', line)
+            m = re.match(r'\s*(?:@\[[^\]]*\]\s*)?(?:protected\s+)?theorem\s+([^\s:({\[]+)', line)
             if m:
                 names.append('.'.join(ns + [m.group(1)]))
     return names
